@@ -344,9 +344,127 @@ def _j(pt):
     return d
 
 
+# ------------------------------------------------------------------------------------------------
+# part (O): every other family, one route at a time, the attribute block padded to the very edge of the message
+# ------------------------------------------------------------------------------------------------
+_OTHER = {}
+
+
+def other_members():
+    """[(desc, family)] : the accepted text routes of the frozen C15 corpus that are neither unicast nor VPNv4"""
+    from vt.checks import c15
+
+    ok, _bad = c15.text_members()
+    out = []
+    for desc, r in ok:
+        fam = c15.fam_of(r.nlri)
+        if fam not in ((1, 1), (2, 1), (1, 128)):
+            out.append((desc, fam))
+    return out
+
+
+def run_other(args):
+    """One route of another family (EVPN, MVPN, MUP, FlowSpec, VPLS, labeled, multicast, VPNv6, BGP-LS ...): the attribute
+    block is padded so that the UPDATE would be 4096 + delta octets.  delta <= 0: one message of exactly that size, which
+    parses on its own (its MP_REACH carries the family, and the NLRI octets ExaBGP packs for the route); delta > 0: no
+    message at all, and no exception."""
+    import struct
+
+    from exabgp.bgp.message import UpdateCollection
+    from exabgp.bgp.message.update.attribute.generic import GenericAttribute
+    from exabgp.bgp.message.update.collection import RoutedNLRI
+    from exabgp.protocol.family import Family
+    from vt.checks import c15
+
+    desc, fam, delta = args
+    key = 'all'
+    if key not in _OTHER:
+        exa.reset_process_state()
+        fams = sorted({(int(a), int(sa)) for a, sa in Family.size})
+        _OTHER[key] = exa.negotiated_all_families(fams, asn4=True, addpath=False, direction_out=True, ext_nh=True)
+    neighbor, neg = _OTHER[key]
+    route = c15.text_route(list(desc))
+    if route is None:
+        return [], ('other-skip',), 0
+    name = f'{fam[0]}/{fam[1]}'
+
+    def messages(pad):
+        attrs = route.attributes.__class__()
+        for code in route.attributes:
+            attrs.add(route.attributes[code])
+        if pad is not None:
+            attrs.add(GenericAttribute(bytes(pad), 0x99, 0xD0))
+        return [bytes(m) for m in UpdateCollection([RoutedNLRI(route.nlri, route.nexthop)], [], attrs).messages(neg, True)]
+
+    viols = []
+    try:
+        base = messages(0)
+    except Exception as e:  # noqa: BLE001
+        return [(f'other:{name}:exception:{type(e).__name__}', f'{route.extensive()[:160]}: {type(e).__name__}: {str(e)[:120]}')], ('other-exc',), 1
+    if len(base) != 1:
+        return [], ('other-not-single', len(base)), 1   # not one message for one route: nothing to pad against
+    pad = 4096 - len(base[0]) + delta
+    if pad < 0:
+        return [], ('other-too-big',), 1
+    try:
+        msgs = messages(pad)
+    except Exception as e:  # noqa: BLE001
+        return [(f'other:{name}:delta{delta:+d}:exception:{type(e).__name__}', f'{route.extensive()[:120]} with {pad} octets of padding: {type(e).__name__}: {str(e)[:120]}')], ('other-exc',), 2
+    over = [len(m) for m in msgs if len(m) > 4096]
+    if over:
+        viols.append((f'other:{name}:oversize', f'{route.extensive()[:120]}: message of {over[0]} octets with the attribute block padded to leave {-delta} octets'))
+    if delta > 0:
+        got = b''.join(msgs)
+        if msgs and any(_mp_reach_of(m) for m in msgs):
+            if not over:
+                viols.append((f'other:{name}:no-room-but-announced', f'{route.extensive()[:120]}: no room for the route ({delta} octets short) and yet {len(msgs)} message(s) announce it'))
+    else:
+        if len(msgs) != 1:
+            viols.append((f'other:{name}:fits-but-{len(msgs)}-messages', f'{route.extensive()[:120]}: the route fits (delta {delta}) but {len(msgs)} messages were generated'))
+        else:
+            m = msgs[0]
+            if len(m) != 4096 + delta or struct.unpack('!H', m[16:18])[0] != len(m) or m[:16] != w.MARKER:
+                viols.append((f'other:{name}:size-or-header', f'message of {len(m)} octets (header says {struct.unpack("!H", m[16:18])[0]}) expected {4096 + delta}'))
+            mp = _mp_reach_of(m)
+            want = bytes(route.nlri.pack_nlri(neg))
+            if mp is None:
+                viols.append((f'other:{name}:no-mp-reach', 'the message holds no well-formed MP_REACH_NLRI'))
+            elif (mp[0], mp[1]) != fam or not mp[3].endswith(want):
+                viols.append((f'other:{name}:nlri-differs', f'MP_REACH for {mp[0]}/{mp[1]} carries NLRI octets {mp[3].hex()[:80]}, the route packs to {want.hex()[:80]}'))
+    return _uniq(viols), ('other', name, delta, len(msgs)), 2
+
+
+def _mp_reach_of(raw):
+    """(afi, safi, next hop length, NLRI octets) of the MP_REACH_NLRI of a framed UPDATE, read with the reference walker"""
+    import struct
+
+    try:
+        body = raw[19:]
+        wl = struct.unpack('!H', body[:2])[0]
+        al = struct.unpack('!H', body[2 + wl:4 + wl])[0]
+        if 4 + wl + al != len(body):
+            return None
+        for flags, code, value in w.walk_attrs(body[4 + wl:4 + wl + al]):
+            if code == 14:
+                afi, safi, nhl = struct.unpack('!HBB', value[:4])
+                return afi, safi, nhl, bytes(value[4 + nhl + 1:])
+    except (w.RefError, struct.error, IndexError):
+        return None
+    return None
+
+
+def _uniq(viols):
+    seen, out = set(), []
+    for sg, wh in viols:
+        if sg not in seen:
+            seen.add(sg)
+            out.append((sg, wh))
+    return out
+
+
 def run(ctx: core.Ctx) -> None:
     ctx.rule = ('grid: max size {4096, 65535} x ADD-PATH x family mix {v4, v6, vpnv4, v4+v6, v4+v6+vpnv4} x prefix size (/24, /32) x 1-2 next hops x attribute block padded byte by byte (0..9) and around the 255-byte '
-                'extended-length threshold (62-64 communities) x counts {N-1, N, N+1, 2N, 2N+1} around the measured exact-fit N x {announce, withdraw, both}; plus attribute blocks leaving {-1..40} bytes of room; non-trivial = more than one message generated')
+                'extended-length threshold (62-64 communities) x counts {N-1, N, N+1, 2N, 2N+1} around the measured exact-fit N x {announce, withdraw, both}; plus attribute blocks leaving {-1..40} bytes of room; (O) every accepted text route of the frozen C15 corpus of any other family, alone, with the attribute block padded to leave {-2,-1,0,+1,+2,+40} octets; non-trivial = more than one message generated')
     ctx.assumptions += ['reference decoder vt/ref/wire.py', 'duplicates of a requested item are tolerated, foreign items are not']
     g = grid(ctx.tier)
     order = sorted(range(len(g)), key=lambda i: (not g[i]['ext'], -len(g[i]['fams'])))
@@ -366,11 +484,28 @@ def run(ctx: core.Ctx) -> None:
     finally:
         pool.close()
         pool.join()
+    # part (O)
+    pool = mp.Pool(min(16, os.cpu_count() or 1))
+    try:
+        ojobs = [(desc, fam, delta) for desc, fam in other_members() for delta in (-2, -1, 0, 1, 2, 40)]
+        for job, (viols, outcome, n) in zip(ojobs, pool.imap(run_other, ojobs, chunksize=8)):
+            ctx.count('executions', n)
+            ctx.count('other_family_points')
+            outcomes.add(tuple(outcome))
+            for sig, what in viols:
+                ctx.violation(sig, what, {'other': [list(job[0]), list(job[1]), job[2]]})
+    finally:
+        pool.close()
+        pool.join()
     ctx.counters['states'] = len(outcomes)
     ctx.counters['transitions'] = ctx.counters.get('executions', 0)
 
 
 def replay(case):
+    if 'other' in case:
+        d, f, delta = case['other']
+        viols, o, n = run_other((d, tuple(f), delta))
+        return [{'signature': s_, 'what': w_} for s_, w_ in viols]
     pt = dict(case['point'])
     pt['fams'] = tuple(pt['fams'])
     if pt['pad'] > 1000:
